@@ -129,6 +129,25 @@ func (p *Prog) provesGE0(v ssa.Value, at *ssa.BasicBlock, fs []Fact, depth int) 
 			}
 		}
 	}
+	// the induction variable of a range loop: i' = phi(-1, i', …) + 1
+	if bo, ok := v.(*ssa.BinOp); ok && bo.Op == token.ADD {
+		if k, isC := constInt(bo.Y); isC && k >= 1 {
+			if ph, ok := bo.X.(*ssa.Phi); ok {
+				all := true
+				for _, e := range ph.Edges {
+					if e == ssa.Value(bo) {
+						continue
+					}
+					if c, isC := constInt(e); !isC || c < -k {
+						all = false
+					}
+				}
+				if all {
+					return true
+				}
+			}
+		}
+	}
 	if ph, ok := v.(*ssa.Phi); ok {
 		for i, e := range ph.Edges {
 			pr := ph.Block().Preds[i]
@@ -482,7 +501,7 @@ func (p *Prog) intTable(g *ssa.Global) ([]int64, bool) {
 
 var ruleBCEExec = &Rule{
 	Name: "R-BCE-EXEC", NeedSSA: true,
-	Doc: "every index or slice operation of package exec is either proven in bounds by the compiler's prove pass or discharged by one of three structural arguments (length-tested constant index into an item sequence; loop between bounds clamped by the callee on every successful return; stringer name sliced by less than its shortest entry)",
+	Doc: "every index or slice operation of package exec is either proven in bounds by the compiler's prove pass or discharged by one of five structural arguments (length-tested constant index into an item sequence; loop between bounds clamped by the callee on every successful return; stringer name sliced by less than its shortest entry; index bounded by len of the same function-local list that nothing in the loop can change; s[len(s)-k] under len(s) >= k with k a positive constant at every call site)",
 	Run: func(p *Prog) *RuleOut {
 		out := newOut("R-BCE-EXEC")
 		nidx := 0
@@ -558,6 +577,13 @@ var ruleBCEExec = &Rule{
 						}
 					} else {
 						why, good = p.clampArgument(x)
+						if !good {
+							if w2, g2 := p.rangeOverLocalList(x); g2 {
+								why, good = w2, true
+							} else if w3, g3 := p.lenMinusPositive(x); g3 {
+								why, good = w3, true
+							}
+						}
 					}
 				case *ssa.Slice:
 					why, good = p.stringerArgument(x)
@@ -708,4 +734,194 @@ func fieldLoadOf(fn *ssa.Function, al *ssa.Alloc, k int) ssa.Value {
 		}
 	}
 	return nil
+}
+
+// --- two more structural arguments -------------------------------------------------------------
+
+// collectorsNeverRetained: nowhere in package exec is a *valueList stored to
+// memory, bound into a closure or converted to an interface: a callee that
+// receives a list cannot keep it, so a list local to a function is only
+// modified by the calls that receive it.
+func (p *Prog) collectorsNeverRetained() (bool, string) {
+	isList := func(t types.Type) bool {
+		pt, ok := t.(*types.Pointer)
+		return ok && pt.Elem() == types.Type(p.A.ValueList)
+	}
+	for _, fn := range p.execFuncs() {
+		for _, b := range fn.Blocks {
+			for _, ins := range b.Instrs {
+				switch x := ins.(type) {
+				case *ssa.Store:
+					if isList(x.Val.Type()) {
+						if _, local := x.Addr.(*ssa.Alloc); local && !x.Addr.(*ssa.Alloc).Heap {
+							continue
+						}
+						return false, p.pos(x.Pos())
+					}
+				case *ssa.MakeInterface:
+					if isList(x.X.Type()) {
+						return false, p.pos(x.Pos())
+					}
+				case *ssa.MakeClosure:
+					for _, bv := range x.Bindings {
+						if isList(bv.Type()) {
+							return false, p.pos(x.Pos())
+						}
+					}
+				}
+			}
+		}
+	}
+	return true, ""
+}
+
+// rangeOverLocalList: ia indexes P.list with an index the branch facts bound
+// by len of an earlier load of the same field of the same local list P, and
+// nothing inside the loop can change P.list: no store to it in the function,
+// no call in the blocks the loop header dominates receives P, and no callee
+// can have retained P.
+func (p *Prog) rangeOverLocalList(ia *ssa.IndexAddr) (string, bool) {
+	ld, ok := ia.X.(*ssa.UnOp)
+	if !ok || ld.Op != token.MUL {
+		return "", false
+	}
+	fa, ok := ld.X.(*ssa.FieldAddr)
+	if !ok {
+		return "", false
+	}
+	P := fa.X
+	switch P.(type) {
+	case *ssa.Call, *ssa.Alloc:
+	default:
+		return "the indexed list is not local to the function", false
+	}
+	fn := ia.Parent()
+	sameField := func(v ssa.Value) bool {
+		u, ok := v.(*ssa.UnOp)
+		if !ok || u.Op != token.MUL {
+			return false
+		}
+		f2, ok := u.X.(*ssa.FieldAddr)
+		return ok && f2.X == P && f2.Field == fa.Field
+	}
+	// upper bound: index < len(earlier load of P.f)
+	var header *ssa.BasicBlock
+	bounded := false
+	for _, f := range factsAt(ia.Block()) {
+		bo, ok := f.Cond.(*ssa.BinOp)
+		if !ok || !(bo.Op == token.LSS && f.Truth || bo.Op == token.GEQ && !f.Truth) || bo.X != ia.Index {
+			continue
+		}
+		lc, ok := bo.Y.(*ssa.Call)
+		if !ok {
+			continue
+		}
+		if bi, ok := lc.Call.Value.(*ssa.Builtin); ok && bi.Name() == "len" && sameField(lc.Call.Args[0]) {
+			bounded = true
+			header = bo.Block()
+		}
+	}
+	if !bounded {
+		return "the index is not bounded by the length of the same list", false
+	}
+	if !p.provesGE0(ia.Index, ia.Block(), factsAt(ia.Block()), 0) {
+		return "the index is not shown to be non-negative", false
+	}
+	for _, b := range fn.Blocks {
+		for _, ins := range b.Instrs {
+			switch x := ins.(type) {
+			case *ssa.Store:
+				if f2, ok := x.Addr.(*ssa.FieldAddr); ok && f2.X == P && f2.Field == fa.Field {
+					return "the list is assigned in this function (" + p.pos(x.Pos()) + ")", false
+				}
+			case ssa.CallInstruction:
+				if header != nil && (b == header || header.Dominates(b)) {
+					for _, a := range x.Common().Args {
+						if a == P {
+							return "a call inside the loop receives the list (" + p.pos(x.Pos()) + ")", false
+						}
+					}
+				}
+			}
+		}
+	}
+	if ok, where := p.collectorsNeverRetained(); !ok {
+		return "a list pointer is retained somewhere in the package (" + where + "), so a callee could modify it", false
+	}
+	return "index bounded by len of the same function-local list, which nothing inside the loop can change (no store, no call receives it, lists are never retained)", true
+}
+
+// lenMinusPositive: ia indexes s at len(s)-k where len(s) >= k holds and k is
+// positive: a positive constant, or a parameter for which every caller passes
+// a positive constant.
+func (p *Prog) lenMinusPositive(ia *ssa.IndexAddr) (string, bool) {
+	bo, ok := stripConv(ia.Index).(*ssa.BinOp)
+	if !ok || bo.Op != token.SUB {
+		return "", false
+	}
+	isLenOf := func(v ssa.Value) bool {
+		c, ok := v.(*ssa.Call)
+		if !ok {
+			return false
+		}
+		bi, ok := c.Call.Value.(*ssa.Builtin)
+		return ok && bi.Name() == "len" && sameValue(c.Call.Args[0], ia.X)
+	}
+	if !isLenOf(bo.X) {
+		return "", false
+	}
+	k := bo.Y
+	// len(s) >= k on the way here
+	ge := false
+	for _, f := range factsAt(ia.Block()) {
+		c, ok := f.Cond.(*ssa.BinOp)
+		if !ok {
+			continue
+		}
+		if isLenOf(c.X) && sameValue(c.Y, k) && (c.Op == token.GEQ && f.Truth || c.Op == token.LSS && !f.Truth) {
+			ge = true
+		}
+		if isLenOf(c.Y) && sameValue(c.X, k) && (c.Op == token.LEQ && f.Truth || c.Op == token.GTR && !f.Truth) {
+			ge = true
+		}
+	}
+	if !ge {
+		return "len(s) >= k is not established before s[len(s)-k]", false
+	}
+	if c, ok := constInt(k); ok {
+		if c > 0 {
+			return fmt.Sprintf("s[len(s)-%d] under len(s) >= %d", c, c), true
+		}
+		return "", false
+	}
+	q, ok := k.(*ssa.Parameter)
+	if !ok {
+		return "the offset from the end is neither a constant nor a parameter", false
+	}
+	fn := q.Parent()
+	idx := -1
+	for i, pp := range fn.Params {
+		if pp == q {
+			idx = i
+		}
+	}
+	node := p.CG.Nodes[fn]
+	if idx < 0 || node == nil || len(node.In) == 0 {
+		return "the callers of " + fn.Name() + " are not known", false
+	}
+	n := 0
+	for _, e := range node.In {
+		if e.Site == nil || e.Site.Common().StaticCallee() != fn || idx >= len(e.Site.Common().Args) {
+			return "a caller of " + fn.Name() + " is not a static call", false
+		}
+		c, ok := constInt(e.Site.Common().Args[idx])
+		if !ok || c <= 0 {
+			return "a caller passes an offset that is not a positive constant (" + p.pos(e.Site.Pos()) + ")", false
+		}
+		n++
+	}
+	if fn.Object() != nil && fn.Object().Exported() {
+		return "the function is exported: other callers may pass anything", false
+	}
+	return fmt.Sprintf("s[len(s)-%s] under len(s) >= %s, and all %d callers pass a positive constant for %s", q.Name(), q.Name(), n, q.Name()), true
 }
